@@ -1204,6 +1204,7 @@ def evaluate(ctx: Ctx | None, case: dict) -> None:
             cplain = {"pre": pre, "one": plain, "many": list(more), "post": post}
             if all(len(subj.ref(m)) <= 65535 for m in more):
                 nested = True
+                _refused_before(cont, cplain)
                 try:
                     core(cont, cplain, lead, trail, case)
                 except Violation as v:
@@ -1313,6 +1314,31 @@ def static_checks(ctx: Ctx) -> None:
 
 def sites() -> list:
     return sorted(REG) + ["cell:CellPayload"]
+
+
+def _refused_before(cont: "Subject", cplain: dict, n: int = 20) -> None:
+    """
+    "For every history": before the genuine message is decoded, the same Serializer is handed damaged versions of it
+    whose nested part is cut short (length prefix reduced, outer size kept) - each is refused or decodes to something
+    else, and must leave nothing behind that matters to the next decode.
+    """
+    ser = STATE["serializer"]
+    try:
+        buf = ser.pack_serializable(cont.build(cplain))
+    except Exception:  # noqa: BLE001 - the genuine encode is judged by core()
+        return
+    if len(buf) < 6:
+        return
+    inner_len = int.from_bytes(buf[2:4], "big")
+    for k in range(n):
+        cut = 1 + k % max(1, min(inner_len, 9))
+        if inner_len < cut:
+            break
+        bad = buf[:2] + (inner_len - cut).to_bytes(2, "big") + buf[4:]
+        try:
+            ser.unpack_serializable(cont.cls, bad)
+        except Exception:  # noqa: BLE001, S110 - refusing it is fine
+            pass
 
 
 def _hyp_shard(ctx: Ctx, shard: int, nshards: int, n_examples: int) -> None:
